@@ -9,6 +9,7 @@
   requests in the documented spellings are covered for every configuration by `hier_decodes_conventional`.
 -/
 import Proofs.HierC02
+import Proofs.HierAlias
 import Props.Facts08Good
 import SpyneModel.Generated.Facts02
 namespace SpyneModel.Props.C02
@@ -93,6 +94,39 @@ theorem hier_response_fidelity (cfg : Cfg) (hsc : cfg.selfConsistent = true)
   response_roundtrip leafLaws08 facts02_rt hsc R method ret v hr hwf hc
     (fun hm => ⟨(hmp hm).1, fun _ => (hmp hm).2⟩) hpl hnone
 
+/-- the cycle guard of `_object_to_doc` is path-local in /repo: `_get_member_pairs` hands a copy of the set to the
+    members (`tags | {id(inst)}`), so the set holds ancestors only -/
+theorem facts02_guard : facts02.guardPathLocal = true := by decide
+
+/-- **The document depends on the value, not on object identity.** Whatever Python objects the nodes of a returned
+    value are (`ids`: the same `ComplexModel` instance may sit in several members of one object, in several slots of
+    one array, in cousins …), as long as no object contains itself, `_object_to_doc` with its cycle guard writes
+    exactly the document of the plain value tree: nothing is dropped, no array is thrown away. -/
+theorem hier_encoding_ignores_identity (cfg : Cfg) (R : Registry) (t : Ty) (v : Val) (ids : Ids)
+    (hac : acyclic [] ids = true) :
+    encodeIds facts08 cfg R facts02 t v ids = encode facts08 cfg R t v := by
+  simp only [encodeIds, facts02_guard, Bool.not_true, encode, encodeG_local _ R t v ids [] hac]
+
+/-- two presentations of one value — aliased or built from distinct objects — are written identically -/
+theorem hier_aliasing_invisible (cfg : Cfg) (R : Registry) (t : Ty) (v : Val) (ids ids' : Ids)
+    (hac : acyclic [] ids = true) (hac' : acyclic [] ids' = true) :
+    encodeIds facts08 cfg R facts02 t v ids = encodeIds facts08 cfg R facts02 t v ids' := by
+  rw [hier_encoding_ignores_identity cfg R t v ids hac, hier_encoding_ignores_identity cfg R t v ids' hac']
+
+/-- response fidelity for results with shared sub-objects: the response written for a conformant value decodes to
+    exactly that value, however its nodes are shared -/
+theorem hier_response_fidelity_aliased (cfg : Cfg) (hsc : cfg.selfConsistent = true)
+    (R : Registry) (method : Text) (ret : Ty) (v : Val) (ids : Ids) (hac : acyclic [] ids = true)
+    (hr : ret.occ.repeated = false) (hwf : wfTy ret = true) (hc : conforms ret v = true)
+    (hmp : cfg.proto.isMsgpack = true → fitsV facts08 v = true ∧ mpReadable ret = true)
+    (hpl : plain cfg.complexAs ret v = true)
+    (hnone : v = .none → cfg.complexAs = .dict) :
+    decodeResponse facts08 facts02 cfg R method ret (encodeResponseIds facts08 cfg R facts02 method ret v ids) = .good v := by
+  have h : encodeResponseIds facts08 cfg R facts02 method ret v ids = encodeResponse facts08 cfg R method ret v := by
+    simp only [encodeResponseIds, encodeResponse, hier_encoding_ignores_identity cfg R ret v ids hac]
+  rw [h]
+  exact hier_response_fidelity cfg hsc R method ret v hr hwf hc hmp hpl hnone
+
 /-- JSON and YAML carry integers of any magnitude natively: no bound, no length guard. -/
 theorem bigint_survives (cfg : Cfg) (hj : cfg.proto.isMsgpack = false) (r : Range) (o : Occ) (i : Int)
     (hrange : r.holds i = true) :
@@ -128,5 +162,11 @@ example : conformsFields [("o".toList, exInner), ("l".toList, .arr "m".toList (.
     Occ.countOk, PrimTy.valueOk, IntKind.lo, IntKind.hi, Range.holds, Date.valid, daysInMonth, isLeap]
 example : plainFields .dict [("o".toList, exInner), ("l".toList, .arr "m".toList (.prim .date {}) {})] exArgs = true := by decide
 example : exCfg.selfConsistent = true := by decide
+
+/-- `Seg(start=p, end=p, more=[q, r, q])`: `p` (id 1) in two members, `q` (id 2) in two slots -/
+def exAliased : Ids := .node (some 0) [.node (some 1) [], .node (some 1) [], .node none [.node (some 2) [], .node (some 3) [], .node (some 2) []]]
+example : acyclic [] exAliased = true := by decide
+/-- a genuine cycle is not acyclic -/
+example : acyclic [] (.node (some 0) [.node (some 1) [.node (some 0) []]]) = false := by decide
 
 end SpyneModel.Props.C02
